@@ -60,6 +60,9 @@ structure Params where
   file is opened as it is), `false` = the pinned tree (`File::create`, which truncates it). -/
   keepOnCreate : Bool
 
+/-- `create_archive` as the code has it now (tied to the source by `ArchiveTie.create_tie`). -/
+def keepOnCreateNow : Bool := true
+
 /-- the rule as the code has it now: remap whenever the size changed. -/
 def remapFixed (old new : Nat) : Bool := decide (new ≠ old)
 
